@@ -525,3 +525,124 @@ func genBigThenSmall(r *core.Rand, tier string, emit func([]string)) {
 		one(4<<20+3+r.Intn(100), 65535, k)
 	}
 }
+
+// blocksFor: SEVERAL header blocks of one direction before its DATA (1xx interim responses and the
+// final one; a request split likewise), with content-type and grpc-encoding in any of them. The
+// encoding in force is the one of the LAST block that names one after the stream became gRPC;
+// `variant` < 0 draws one.
+//
+//	0 interim block(s) without gRPC fields, then the full block
+//	1 first block announces gRPC (and names another encoding), the final block names enc only
+//	2 first block announces and names enc, the final block names nothing (enc stays)
+//	3 first block names another encoding BEFORE the stream is gRPC (ignored if nothing announced
+//	  it yet), a second interim block, then the full block
+func blocksFor(r *core.Rand, dir, enc string, variant int) (pre [][]hf, main []hf) {
+	if variant < 0 {
+		variant = r.Intn(4)
+	}
+	interim := func(extra ...hf) []hf {
+		var b []hf
+		if dir == "s" {
+			b = append(b, hf{":status", r.Pick("100", "103")})
+			if r.Bool() {
+				b = append(b, hf{"link", "</x>; rel=preload"})
+			}
+		} else {
+			b = append(b, hf{":method", "POST"}, hf{":path", "/svc/Method"})
+		}
+		return append(b, extra...)
+	}
+	ct := hf{"content-type", r.Pick("application/grpc", "application/grpc", "application/grpc+proto")}
+	other := otherEnc(r, enc)
+	core.Count(fmt.Sprintf("hdrblocks:variant=%d", variant))
+	switch variant {
+	case 0:
+		pre = append(pre, interim())
+		if r.Chance(1, 3) {
+			pre = append(pre, interim(hf{"x-early", "1"}))
+		}
+		main = planFor(r, enc).fields(r, dir)
+	case 1:
+		pre = append(pre, interim(ct, hf{"grpc-encoding", other}))
+		main = []hf{{"x-final", "1"}, {"grpc-encoding", enc}}
+		if dir == "s" {
+			main = append([]hf{{":status", "200"}}, main...)
+		}
+	case 2:
+		if r.Bool() {
+			pre = append(pre, interim(hf{"grpc-encoding", enc}, ct))
+		} else {
+			pre = append(pre, interim(ct, hf{"grpc-encoding", other}, hf{"grpc-encoding", enc}))
+		}
+		main = []hf{{"x-final", "1"}, {"grpc-accept-encoding", other}}
+		if dir == "s" {
+			main = append([]hf{{":status", "200"}}, main...)
+		}
+	default:
+		pre = append(pre, interim(hf{"grpc-encoding", other}), interim())
+		main = planFor(r, enc).fields(r, dir)
+	}
+	return pre, main
+}
+
+// genHeaderBlocks: every block variant x 4 encodings x both directions, compressed messages behind
+// them, trailers (without and - outside the statement once DATA has flowed - with grpc-encoding) after.
+func genHeaderBlocks(r *core.Rand, rounds int, emit func([]string)) {
+	for round := 0; round < rounds; round++ {
+		for _, enc := range encs {
+			for _, dir := range []string{"c", "s"} {
+				for v := 0; v < 4; v++ {
+					stream := smallStream(r, enc)
+					pre, main := blocksFor(r, dir, enc, v)
+					spec := dirSpec{pre: pre, dir: dir, enc: enc, hdrs: main, frames: randomCuts(r, stream), eos: pickEOS(r, len(stream))}
+					if r.Chance(1, 3) { // the other direction announced gRPC first
+						other := "c"
+						if dir == "c" {
+							other = "s"
+						}
+						ops := tables(enc, stream, map[string]bool{})
+						ops = append(ops, hdrLine(other, false, planFor(r, otherEnc(r, enc)).fields(r, other)))
+						emit(append(ops, opsOf(spec)...))
+						continue
+					}
+					emit(buildCase(r, false, spec))
+				}
+			}
+		}
+	}
+}
+
+// genBigDecompressed: messages that are small on the wire and LARGE once decompressed (a short
+// pattern repeated: 4 MiB - 1, 4 MiB, 4 MiB + 1..3, 8 MiB + 1), under each compressing encoding, in
+// both directions, followed by a short message. The plaintext travels in the op lines as a
+// `gen:<pattern>:<n>` token.
+func genBigDecompressed(r *core.Rand, tier string, emit func([]string)) {
+	one := func(enc string, n int) {
+		pat := r.Bytes(r.Range(1, 7))
+		big := make([]byte, n)
+		for i := range big {
+			big[i] = pat[i%len(pat)]
+		}
+		ms := []gmsg{{1, big}, {byte(r.Intn(2)), payload(r, r.Range(0, 5))}}
+		if r.Bool() {
+			ms = append([]gmsg{{0, payload(r, 3)}}, ms...)
+		}
+		stream := streamOf(enc, ms, []int{0, 1}[r.Intn(2)])
+		dir := r.Pick("c", "s")
+		core.Count(fmt.Sprintf("big-decompressed:%s:%dMiB", enc, n>>20))
+		emit(buildCase(r, false, dirSpec{dir: dir, enc: enc, hdrs: planFor(r, enc).fields(r, dir), frames: randomCuts(r, stream), eos: pickEOS(r, len(stream))}))
+	}
+	comp := []string{"gzip", "deflate", "snappy"}
+	if tier != "thorough" {
+		for _, enc := range comp {
+			one(enc, 4<<20+r.Range(1, 3))
+		}
+		one(comp[r.Intn(3)], 4<<20-r.Intn(2))
+		return
+	}
+	for _, enc := range comp {
+		for _, n := range []int{4<<20 - 1, 4 << 20, 4<<20 + 1, 4<<20 + 4097, 8<<20 + 1} {
+			one(enc, n)
+		}
+	}
+}
